@@ -600,6 +600,14 @@ async fn check_pred(ds: &Dataset, st: &State, fam: &str, index: &str, history: &
         let dk = if only_without.is_empty() && neg && only_with.iter().all(|u| null_uids.contains(u)) {
             // the suspected 3VL defect: the complement of an exact index answer contains the NULL rows
             "negation-over-indexed-nullable-column/index-returns-null-rows".to_string()
+        } else if istable
+            && !["zonemap", "bloomfilter"].contains(&ikind.as_str())
+            && update_then_optimize(history)
+            && only_with.iter().chain(only_without.iter()).all(|u| [0i64, 2, 3, 5, 6].contains(u))
+        {
+            // an update keeps the row id on a stable-row-id table; optimize_indices merges the new delta
+            // without retiring the old entries of those ids: the index answers with the old values
+            "stable-row-ids/update-then-optimize/stale-index-entries".to_string()
         } else if (ikind == "zonemap" || ikind == "bloomfilter") && istable && only_with.is_empty() {
             // zone maps / bloom filter blocks answer in row addresses, which are not row ids on a
             // stable-row-id table
@@ -693,6 +701,10 @@ pub(crate) fn merge_history_keys(viol: &mut [Violation]) {
             }
         }
     }
+}
+
+fn update_then_optimize(h: &[HOp]) -> bool {
+    h.iter().enumerate().any(|(i, a)| matches!(a, HOp::UpdateVal | HOp::UpdateNull) && h[i + 1..].iter().any(|b| matches!(b, HOp::Optimize | HOp::OptimizeMerge)))
 }
 
 fn negation_like(q: &Q) -> bool {
